@@ -180,11 +180,13 @@ impl ConnectionState {
                 };
                 *self = ConnectionState::ServerClosing(close);
 
+                // (Consumers first, here and below: a caller that gets its error is free to
+                // drop its consumers, and with them the receiving ends of their queues.)
                 for (_, mut slot) in inner.chan_slots.drain() {
-                    send(&slot.tx, Err(make_err()))?;
                     for (_, tx) in slot.consumers.drain() {
                         send(&tx, ConsumerMessage::ServerClosedConnection(make_err()))?;
                     }
+                    send(&slot.tx, Err(make_err()))?;
                 }
             }
             // Server ack for client-initiated connection close.
@@ -199,10 +201,10 @@ impl ConnectionState {
                 *self = ConnectionState::ClientClosed;
 
                 for (_, mut slot) in inner.chan_slots.drain() {
-                    send(&slot.tx, Err(Error::ClientClosedConnection))?;
                     for (_, tx) in slot.consumers.drain() {
                         send(&tx, ConsumerMessage::ClientClosedConnection)?;
                     }
+                    send(&slot.tx, Err(Error::ClientClosedConnection))?;
                 }
             }
             // Server is blocking publishes due to an alarm on its side (e.g., low mem)
@@ -236,10 +238,10 @@ impl ConnectionState {
                     code: close.reply_code,
                     message: close.reply_text.clone(),
                 };
-                send(&slot.tx, Err(make_err()))?;
                 for (_, tx) in slot.consumers.drain() {
                     send(&tx, ConsumerMessage::ServerClosedChannel(make_err()))?;
                 }
+                send(&slot.tx, Err(make_err()))?;
                 inner.push_method(n, AmqpChannel::CloseOk(ChannelCloseOk {}));
             }
             // Server ack for client-initiated channel close.
@@ -294,16 +296,18 @@ impl ConnectionState {
             // Server ack for client-initiated consumer cancel.
             AMQPFrame::Method(n, AMQPClass::Basic(AmqpBasic::CancelOk(cancel_ok))) => {
                 let slot = slot_get_mut(inner, n)?;
-                let consumer = slot.consumers.remove(&cancel_ok.consumer_tag);
+                // Tell the consumer before answering the cancel call: once the caller has
+                // its reply it is free to drop the consumer, and with it the receiving end
+                // of this queue.
+                if let Some(tx) = slot.consumers.remove(&cancel_ok.consumer_tag) {
+                    send(&tx, ConsumerMessage::ClientCancelled)?;
+                }
                 send(
                     &slot.tx,
                     Ok(ChannelMessage::Method(AMQPClass::Basic(
                         AmqpBasic::CancelOk(cancel_ok),
                     ))),
                 )?;
-                if let Some(tx) = consumer {
-                    send(&tx, ConsumerMessage::ClientCancelled)?;
-                }
             }
             // Server beginning delivery of content to a consumer.
             AMQPFrame::Method(n, AMQPClass::Basic(AmqpBasic::Deliver(deliver))) => {
